@@ -1103,6 +1103,7 @@ seq_t dtw_warping_paths_ndim(seq_t *wps,
     bool smaller_found;
 
     DTWWps p = dtw_wps_parts(l1, l2, settings);
+    seq_t user_max_dist = p.max_dist;
     if (settings->use_pruning || settings->only_ub) {
         if (ndim == 1) {
             p.max_dist = ub_euclidean(s1, l1, s2, l2);
@@ -1118,6 +1119,10 @@ seq_t dtw_warping_paths_ndim(seq_t *wps,
         }
         // sqrt followed by pow can round below the exact sum, keep the bound an upper bound
         p.max_dist = pow(p.max_dist, 2) * (1 + 4*DBL_EPSILON);
+        if (user_max_dist < p.max_dist) {
+            // An explicitly given max_dist stays in force if it is the smaller bound
+            p.max_dist = user_max_dist;
+        }
     }
 
     idx_t ri, ci, min_ci, max_ci, wpsi, wpsi_start;
@@ -1493,6 +1498,7 @@ seq_t dtw_warping_paths_ndim_euclidean(seq_t *wps,
     bool smaller_found;
 
     DTWWps p = dtw_wps_parts(l1, l2, settings);
+    seq_t user_max_dist = p.max_dist;
     if (settings->use_pruning || settings->only_ub) {
         if (ndim == 1) {
             p.max_dist = ub_euclidean_euclidean(s1, l1, s2, l2);
@@ -1501,6 +1507,10 @@ seq_t dtw_warping_paths_ndim_euclidean(seq_t *wps,
         }
         if (settings->only_ub) {
             return p.max_dist;
+        }
+        if (user_max_dist < p.max_dist) {
+            // An explicitly given max_dist stays in force if it is the smaller bound
+            p.max_dist = user_max_dist;
         }
     }
 
